@@ -18,16 +18,29 @@ var rules = []string{
 	`(?s)^.$`, `x{2}`, `(?i)^B`, `(?i:c)d`, `^$`, `(?U)a+`, `(?-i)T`, `\.`, `(?m)^b$`, `^(?i)x|y$`,
 	// pure literals anchored at both ends / one end (an implementation may be tempted to treat literals specially)
 	`^a\.test$`, `^b$`, `^a\.test`, `xx`,
+	// quoting: an unterminated \Q quote runs to the end of the rule (valid on its own), a terminated one; a rule
+	// that begins with a literal dash (as an exclude rule it is spelt with two dashes)
+	`\Qa.te`, `\Q.\Ete`, `-x`,
 }
 
 var hosts = []string{
 	"a.test", "A.TEST", "b.test", "B.test", "xa.testx", "ab", "xx", "XX", "", "cd", "CD", "Cd", "T", "t",
-	"y", "Y", "x", "X", "b", "a\nb", "\n", "aax", "AAX", "xa.test", "a.test.evil", "bb", "axxb",
+	"y", "Y", "x", "X", "b", "a\nb", "\n", "aax", "AAX", "xa.test", "a.test.evil", "bb", "axxb", "a-x.test", "-x",
+}
+
+// newMatcher builds the matcher; a panic (the list is made of rules that were each accepted) is a finding, not a crash of the check.
+func newMatcher(x *explore.X, items []ruleset.RegexpListItem, strs []string) (m *ruleset.RegexpMatcher, err error) {
+	defer func() {
+		if r := recover(); r != nil {
+			x.Failf("matcher-construction-panics", "list %q: every rule was accepted on its own, NewRegexpMatcherFromList panics: %v", strs, r)
+		}
+	}()
+	return ruleset.NewRegexpMatcherFromList(items)
 }
 
 func TestC17(t *testing.T) {
 	s := explore.NewSuite(t, "C17", "exploration",
-		"every ordered list of <=L rules (L=2 quick, 3 thorough; plus L=4 over a 6-rule sub-alphabet in thorough) drawn from 22 regular expressions x {include, exclude}, each evaluated on 27 host strings through ruleset.ParseRegexpListItem + NewRegexpMatcherFromList (+Inverse) and compared with a reference that evaluates every rule on its own with package regexp; plus (list-lengths) every list of 1-40 include rules and 0-40 exclude rules, each rule matching exactly one host, checked on 42 hosts; plus (concurrent-matchers, Engine T) one matcher and its inverse used by two threads at once for 4x4 hosts over 3 lists, ruleset/regexp.go rebuilt with a scheduling point before every statement, every interleaving with at most 2 (quick) / 3 (thorough) preemptions, verdicts of the two callers and of every later sequential caller compared with the per-rule reference; plus (aged-matcher) every include rule x optional exclude rule on ONE matcher: the host alphabet, then N distinct other hosts (N in {300, 1100}, thorough also 4200 and 70000), then the alphabet forwards and backwards, every answer and its inverse compared with the memoryless reference; non-trivial = the list has at least one include rule so a matcher is built and compared")
+		"every ordered list of <=L rules (L=2 quick, 3 thorough; plus L=4 over a 6-rule sub-alphabet in thorough) drawn from 25 regular expressions (incl. \\Q quoting, terminated and not, and a rule beginning with a literal dash) x {include, exclude}, each evaluated on 29 host strings through ruleset.ParseRegexpListItem + NewRegexpMatcherFromList (+Inverse) and compared with a reference that evaluates every rule on its own with package regexp; plus (list-lengths) every list of 1-40 include rules and 0-40 exclude rules, each rule matching exactly one host, checked on 42 hosts; plus (concurrent-matchers, Engine T) one matcher and its inverse used by two threads at once for 4x4 hosts over 3 lists, ruleset/regexp.go rebuilt with a scheduling point before every statement, every interleaving with at most 2 (quick) / 3 (thorough) preemptions, verdicts of the two callers and of every later sequential caller compared with the per-rule reference; plus (aged-matcher) every include rule x optional exclude rule on ONE matcher: the host alphabet, then N distinct other hosts (N in {300, 1100}, thorough also 4200 and 70000), then the alphabet forwards and backwards, every answer and its inverse compared with the memoryless reference; non-trivial = the list has at least one include rule so a matcher is built and compared")
 	s.Assume = []string{"package regexp (used for the per-rule reference) is trusted"}
 	compiled := make([]*regexp.Regexp, len(rules))
 	for i, r := range rules {
@@ -45,6 +58,10 @@ func TestC17(t *testing.T) {
 				ri := alphabet[x.ChooseFree(fmt.Sprintf("rule%d", i), len(alphabet))]
 				ex := x.ChooseFree(fmt.Sprintf("exclude%d", i), 2) == 1
 				str := rules[ri]
+				if !ex && strings.HasPrefix(str, "-") {
+					x.Outcome("inadmissible") // a rule that begins with a dash cannot be written as an include rule
+					return
+				}
 				if ex {
 					str = "-" + str
 				}
@@ -65,7 +82,10 @@ func TestC17(t *testing.T) {
 				}
 			}
 			x.Logf("list %q", strs)
-			m, err := ruleset.NewRegexpMatcherFromList(items)
+			m, err := newMatcher(x, items, strs)
+			if x.Failed() {
+				return
+			}
 			if !hasInclude {
 				if err == nil {
 					x.Failf("no-include-accepted", "list %q without include rule accepted", strs)
@@ -164,6 +184,10 @@ func TestC17(t *testing.T) {
 	s.Add(explore.Scenario{Name: "aged-matcher", Run: func(x *explore.X) {
 		inc := x.ChooseFree("include", len(rules))
 		exc := x.ChooseFree("exclude", len(rules)+1) - 1
+		if strings.HasPrefix(rules[inc], "-") {
+			x.Outcome("inadmissible")
+			return
+		}
 		fillers := []int{300, 1100, 4200, 70000}
 		if os.Getenv("VERIF_TIER") != "thorough" {
 			fillers = fillers[:2]
@@ -182,7 +206,10 @@ func TestC17(t *testing.T) {
 			}
 			items = append(items, it)
 		}
-		m, err := ruleset.NewRegexpMatcherFromList(items)
+		m, err := newMatcher(x, items, strs)
+		if x.Failed() {
+			return
+		}
 		if err != nil {
 			x.Failf("valid-list-rejected", "list %q: %v", strs, err)
 			return
